@@ -431,3 +431,76 @@ def receiver(s):
 
 def call_args(s):
     return s[3] if s[0] == "mcall" else s[2]
+
+
+def to_py(e) -> str:
+    """arithmetic mini-IR expression as Python source (casts dropped, float suffixes gone): input of the rational-function
+    normaliser, which compares formulas as real-valued maps"""
+    t = e[0]
+    if t == "lit" and isinstance(e[1], (int, float)) and not isinstance(e[1], bool):
+        return repr(e[1])
+    if t == "var":
+        return str(e[1])
+    if t == "cast":
+        return to_py(e[2])
+    if t == "ctor" and len(e[2]) == 1:
+        return to_py(e[2][0])
+    if t == "un" and e[1] in ("-", "+"):
+        return f"({e[1]}{to_py(e[2])})"
+    if t == "bin" and e[1] in ("+", "-", "*", "/"):
+        return f"({to_py(e[2])} {e[1]} {to_py(e[3])})"
+    raise ValueError(f"not arithmetic: {show(e)}")
+
+
+def _must_expr(e):
+    out = set()
+    if e is None or not isinstance(e, tuple):
+        return out
+    t = e[0]
+    if t == "cond":
+        return _must_expr(e[1]) | (_must_expr(e[2]) & _must_expr(e[3]))
+    if t == "bin" and e[1] in ("&&", "||"):
+        return _must_expr(e[2])   # the right operand is evaluated conditionally
+    if t in ("call", "mcall"):
+        nm = callee(e)
+        args = e[2] if t == "call" else e[3]
+        out.add(f"{nm}({show(args[0]) if args else ''})")
+        for a in args:
+            out |= _must_expr(a)
+        return out
+    for c in e[1:]:
+        if isinstance(c, tuple):
+            out |= _must_expr(c)
+        elif isinstance(c, list):
+            for x in c:
+                if isinstance(x, tuple):
+                    out |= _must_expr(x)
+    return out
+
+
+def must_calls(body):
+    """calls `name(first-argument)` executed on *every* path through ``body`` that reaches its end (loops may run zero
+    times and contribute nothing; an if contributes what both arms share)"""
+    out = set()
+    for st in body:
+        k = st["k"]
+        if k == "block":
+            out |= must_calls(st["body"])
+        elif k == "if":
+            out |= _must_expr(st["cond"])
+            out |= must_calls(st["then"]) & must_calls(st["else"] or [])
+        elif k in ("for", "while"):
+            if k == "for":
+                out |= must_calls(st["init"])
+            if not st.get("do"):
+                out |= _must_expr(st["cond"])
+            else:
+                out |= must_calls(st["body"])
+        elif k in ("return", "break", "continue"):
+            for e in stmt_exprs(st):
+                out |= _must_expr(e)
+            break
+        else:
+            for e in stmt_exprs(st):
+                out |= _must_expr(e)
+    return out
